@@ -5,9 +5,16 @@ JUDGE = ("judge.J15", "J15.judge_i")
 JUDGE_IMPORTS = ("From NSQV Require Import model.Names model.Lookupd model.LookupProto judge.J14.",)
 JUDGE_SCOPE = "N_scope"
 REPO_BINS = [("nsqlookupd", "apps/nsqlookupd", "")]
-RULE = ("sessions against a real nsqlookupd SUBPROCESS (binary built from the repository) with a well-behaved bystander producer that stays connected: "
-        "each session = 10-24 actions, ~52% hostile TCP streams (each followed by EOF), ~40% HTTP requests, the rest bystander PING/REGISTER. "
-        "Streams: wrong / short protocol magic; random bytes; a mostly-valid prefix (IDENTIFY, REGISTER/UNREGISTER also on the bystander's topic, PING with "
+RULE = ("sessions against a real nsqlookupd SUBPROCESS (binary built from the repository) with a well-behaved bystander producer that stays connected and, in "
+        "~60% of the sessions, a second well-behaved producer (the visitor) that is connected and registered (also on the bystander's topic) while the hostile "
+        "streams arrive, re-registers, unregisters, leaves and comes back: "
+        "each session = 10-24 actions, ~52% hostile TCP streams (each followed by EOF), ~38% HTTP requests, the rest bystander / visitor commands. "
+        "Streams: wrong / short protocol magic; random bytes; IDENTIFY bodies that are complete but carry a member colliding with the identity the daemon keeps "
+        "for a connection (14 keys: remote_address in 5 spellings - encoding/json matches case-insensitively -, id/ID/Id/peer_id, lastUpdate in 3 spellings, "
+        "hostname, topology_zone; placed first, last or twice) whose value is the LIVE registry id (socket address, substituted at run time) of the bystander, "
+        "of the visitor, of the sending connection itself, of a connection already closed, empty, or a foreign string, optionally with the bystander's node "
+        "string, followed by UNREGISTER / REGISTER of the victims' topics and channels, PING, an unknown command, or nothing, then EOF (plus the full "
+        "key x {bystander, visitor} matrix in two fixed sessions and the visitor's own IDENTIFY carrying such members); a mostly-valid prefix (IDENTIFY, REGISTER/UNREGISTER also on the bystander's topic, PING with "
         "ASCII and Unicode white space) followed by one malformed command labelled with the answer it must provoke: unknown commands, REGISTER/UNREGISTER "
         "without parameters / before IDENTIFY / with invalid topic or channel names (bad characters, 65 bytes, bare '#ephemeral', NUL, non-breaking space, "
         "empty), repeated IDENTIFY, IDENTIFY with size 0, negative sizes (0xFFFFFFFF, 0x80000000, ...), 1 MiB announced and a truncated body, body one to five "
@@ -15,7 +22,9 @@ RULE = ("sessions against a real nsqlookupd SUBPROCESS (binary built from the re
         "commands that must be ignored and by a last line without newline. HTTP: 27 paths (all routes but the 30 s CPU profile, unknown paths, trailing-slash "
         "and case variants) x 7 methods x topic in {absent, empty, bystander's, new, invalid, wildcard, 65 bytes, ephemeral} x channel (7 values) x node (4 values), "
         "unparsable queries (quick: sampled, biased to POST on the admin routes; thorough: the systematic matrix of 1700 requests). After EVERY action: /ping "
-        "liveness + process state, the raw frames / status code, /lookup of the bystander's topic, /topics, /channels?topic=*, /debug. "
+        "liveness + process state, the raw frames / status code, /lookup of the bystander's topic, /topics, /channels?topic=*, /debug (the views after a "
+        "visitor command are taken while that connection is still open). Monitor: a hostile connection that has come and gone leaves EVERY producer entry of "
+        "/debug and the /lookup producers exactly as they were; a well-behaved command changes nothing that is not its own connection's. "
         "Every case is non-trivial; distinct = distinct terms.")
 TRUSTED = [
     "modelled, not verified: bufio.Reader.ReadString / io.ReadFull / binary.Read (as: a line up to '\\n' or EOF; exactly n bytes or an error), "
@@ -27,7 +36,8 @@ TRUSTED = [
 ]
 ASSUMPTIONS = [
     "C15 'partial': memory exhaustion by a huge positive body size is outside the model; the daemon's behaviour when the client stops reading (send errors) is not modelled (the driver always reads)",
-    "hostile connections are sequential (one stream at a time next to the bystander); concurrent hostile connections are covered by the isolation theorem, not by the driver",
+    "hostile connections are sequential (one stream at a time next to the bystander and the visitor); concurrent hostile connections are covered by the isolation theorem, not by the driver",
+    "the model identifies a producer entry with the connection it arrived on; that the source does so (id written once from client.RemoteAddr() before json.Unmarshal, every registry call keyed by client.peerInfo) is tied by the generated tables lookupd_IDENTIFY_peerinfo_writes / lookupd_identity_uses and exercised by the identity-member streams",
 ]
 LEVEL_TEXT = ("Machine-checked proof (Coq 8.16.1) over a byte-level executable model of tcp.go Handle + LookupProtocolV1.IOLoop/Exec/IDENTIFY/REGISTER/UNREGISTER/PING "
               "(protocol magic, line read, TrimSpace, Split, dispatch, the int32 body size with the `bodyLen <= 0` refusal, make with an explicit Panic outcome, ReadFull, "
@@ -36,7 +46,8 @@ LEVEL_TEXT = ("Machine-checked proof (Coq 8.16.1) over a byte-level executable m
               "E_BAD_CHANNEL / E_BAD_BODY as specified and refused (nothing registered, connection closed, the error is the last frame); whatever arrives on connection p "
               "is a sequence of p's own operations, so every other connection's registrations, tombstone marks, last_update and /lookup listing are unchanged; an HTTP "
               "request not answered 200 changes nothing and only POST on the five admin routes can change the registry. The dispatch table, route table, handler "
-              "guard/call summaries (incl. the position of the size refusal before make) are regenerated from the source on every run and proved equal to the model's. "
+              "guard/call summaries (incl. the position of the size refusal before make), the writes of peerInfo in IDENTIFY (the id comes from the socket, before json.Unmarshal, "
+              "and is never written again) and the identity argument of every registry call of the handlers are regenerated from the source on every run and proved equal to the model's. "
               "Tied to the code by differential correspondence on a real nsqlookupd subprocess with a bystander producer.")
 LEVEL_NOTE = ("Trusted: Coq kernel + vm_compute; gotables; stdlib/httprouter/runtime modelled as stated. Correspondence is sampled; the theorems are not. "
               "Huge positive allocations and send-side failures are partial.")
